@@ -259,7 +259,7 @@ def generate():
             vals["use_guard_src"] = "(none)"
         if not re.search(r"use_stack\s*\[\s*use_stack_ptr\s*\+\+\s*\]\s*=\s*descr\s*;", rule[cut:]):
             raise Untranslatable("<USE> rule: push `use_stack[use_stack_ptr++] = descr;` not found")
-        me = re.search(r"<<EOF>>\s*\{(.*?)^\}", scan, re.S | re.M)
+        me = re.search(r"^<<EOF>>\s*\{(.*?)^\}", scan, re.S | re.M)
         if not me or not re.search(r"if\s*\(\s*--use_stack_ptr\s*<\s*0\s*\)", me.group(1)):
             raise Untranslatable("<<EOF>> rule: `if (--use_stack_ptr < 0)` not found")
         if not re.search(r"moduletab_add_module\s*\(\s*modtab\s*,", rule[cut:]):
